@@ -573,3 +573,161 @@ def adapters(r, sels, force=False, std=True):
         j = b.op(f"{'fhash' if force else 'hash'} {sel} 64 {kstr(key)} {hexbytes(acc)}")
         b.eq(f0, j, "finish() is not the 64-bit hash of the bytes written so far")
     return b
+
+
+# ------------------------------------------------------------------------------------------------
+# provided trait methods: Hash impls of std value types through Hasher::write_*, hash_one,
+# io::Write::write_vectored / write_fmt  (model: HH/StdTraits.lean)
+
+INT_KINDS = [("u8", 1), ("u16", 2), ("u32", 4), ("u64", 8), ("u128", 16), ("usize", 0),
+             ("i8", 1), ("i16", 2), ("i32", 4), ("i64", 8), ("i128", 16), ("isize", 0)]
+
+
+def _ne(n, v, info):
+    b = (v % (1 << (8 * n))).to_bytes(n, "little")
+    return b[::-1] if info.get("endian") == "big" else b
+
+
+def _ptr(info):
+    return int(info.get("ptr", "64") or 64) // 8
+
+
+def _rint(r, nbytes):
+    bits = 8 * nbytes
+    return r.choice((0, 1, (1 << bits) - 1, 1 << (bits - 1), (1 << (bits - 1)) - 1, r.getrandbits(bits), r.getrandbits(bits), 0xFF, 0x0102030405060708090A0B0C0D0E0F10 % (1 << bits)))
+
+
+def _rstr(r, n=None):
+    n = r.choice((0, 1, 2, 5, 13, 31, 32, 33, 64, 100, 128, 129, 200)) if n is None else n
+    alphabet = "abcxyz0189 _-/é中\U0001F600"
+    s = "".join(r.choice(alphabet) for _ in range(n))
+    return s.encode("utf-8")
+
+
+def rval(r, info):
+    """a random value token of the protocol and the list of `Hasher::write` calls its Hash impl must make"""
+    p = _ptr(info)
+    k = r.randrange(12)
+    if k <= 3:
+        name, n = r.choice(INT_KINDS)
+        n = n or p
+        v = _rint(r, n)
+        return f"{name}:{v:x}", [_ne(n, v, info)]
+    if k == 4:
+        v = r.random() < 0.5
+        return f"bool:{int(v)}", [bytes([int(v)])]
+    if k == 5:
+        c = r.choice((0x41, 0x7F, 0x80, 0xE9, 0x4E2D, 0x1F600, 0x10FFFF, 0))
+        return f"char:{c:x}", [_ne(4, c, info)]
+    if k == 6:
+        if r.random() < 0.3:
+            return "unit", []
+        d = rbytes(r, r.choice((0, 1, 7, 8, 31, 32, 33, 64, 127, 128, 200)))
+        return f"bytes:{hexbytes(d)}", [_ne(p, len(d), info), d]
+    if k == 7:
+        s = _rstr(r)
+        return f"str:{hexbytes(s)}", [s, b"\xff"]
+    if k == 8:
+        xs = [r.getrandbits(32) for _ in range(r.choice((0, 1, 2, 7, 8, 9, 33)))]
+        wire = b"".join(x.to_bytes(4, "little") for x in xs)
+        return f"u32s:{hexbytes(wire)}", [_ne(p, len(xs), info), b"".join(_ne(4, x, info) for x in xs)]
+    if k == 9:
+        a, c = _rstr(r, r.randrange(0, 40)), _rstr(r, r.randrange(0, 40))
+        return f"pss:{hexbytes(a)}:{hexbytes(c)}", [a, b"\xff", c, b"\xff"]
+    if k == 10:
+        name, n = r.choice(INT_KINDS)
+        n = n or p
+        v = _rint(r, n)
+        d = rbytes(r, r.choice((0, 3, 31, 32, 40, 130)))
+        return f"pib:{name}:{v:x}:{hexbytes(d)}", [_ne(n, v, info), _ne(p, len(d), info), d]
+    if r.random() < 0.5:
+        if r.random() < 0.3:
+            return "ou64:none", [_ne(p, 0, info)]
+        v = _rint(r, 8)
+        return f"ou64:{v:x}", [_ne(p, 1, info), _ne(8, v, info)]
+    if r.random() < 0.3:
+        return "obytes:none", [_ne(p, 0, info)]
+    d = rbytes(r, r.choice((1, 5, 32, 65)))      # the protocol writes an empty byte string as "-", never as "none"
+    return f"obytes:{hexbytes(d)}", [_ne(p, 1, info), _ne(p, len(d), info), d]
+
+
+def writes_str(ws):
+    return "|".join(hexbytes(w) for w in ws) if ws else "nowrites"
+
+
+def provided(r, sels, info, force=False, std=True):
+    """the parts of the std traits the crate does NOT define itself (so a maintainer may override them):
+    Hasher::write_u8..write_usize / write_str / length prefixes reached through `value.hash(&mut h)`,
+    BuildHasher::hash_one, io::Write::write_vectored, io::Write::write_fmt"""
+    mode = r.randrange(4 if std else 2)
+    key = rkey(r)
+    hs = "fhash" if force else "hash"
+    if mode == 0:
+        b = B("provided-hashone", ["hash_one"])
+        for _ in range(r.randrange(1, 5)):
+            tok, ws = rval(r, info)
+            b.tags.append("val=" + tok.split(":")[0])
+            i = b.op(f"hashrec {tok}")
+            b.expect(i, writes_str(ws), "HARNESS/TOOLCHAIN: core's Hash impl makes other write calls than HH/StdTraits.lean assumes")
+            f = b.op(f"hashone {kstr(key)} {tok}")
+            j = b.op(f"hash auto 64 {kstr(key)} {hexbytes(b''.join(ws))}")
+            b.eq(f, j, "BuildHasher::hash_one(value) is not the 64-bit hash of the bytes the value's Hash impl feeds")
+            p = b.op(f"hash portable 64 {kstr(key)} {hexbytes(b''.join(ws))}")
+            b.eq(f, p, "hash_one differs from the portable hash of the same bytes")
+        return b
+    sel = r.choice([s for s in sels if s not in NO_TRAITS] or ["portable"])
+    nw = "fnew" if force else "new"
+    if mode == 1:
+        b = B("provided-hwval", [sel, "value.hash"])
+        b.op(f"{nw} 0 {sel} {kstr(key)}")
+        acc = rbytes(r, r.randrange(0, 40))
+        b.op(f"hwrite 0 {hexbytes(acc)}")
+        for _ in range(r.randrange(1, 6)):
+            tok, ws = rval(r, info)
+            b.tags.append("val=" + tok.split(":")[0])
+            b.op(f"hwval 0 {tok}")
+            acc += b"".join(ws)
+            if r.random() < 0.5:
+                f = b.op("finish 0")
+                j = b.op(f"{hs} {sel} 64 {kstr(key)} {hexbytes(acc)}")
+                b.eq(f, j, "finish() after value.hash(&mut hasher) is not the hash of the bytes the provided write_* methods must feed")
+        f = b.op("finish 0")
+        j = b.op(f"{hs} portable 64 {kstr(key)} {hexbytes(acc)}")
+        b.eq(f, j, "finish() after value.hash(&mut hasher) is not the portable hash of the bytes fed")
+        c0 = b.op("ckpt 0")
+        b.op(f"new 1 portable {kstr(key)}")
+        b.op(f"append 1 {hexbytes(acc)}")
+        c1 = b.op("ckpt 1")
+        b.eq(c0, c1, "state after value.hash(&mut hasher) differs from appending the same bytes")
+        return b
+    lens = (0, 1, 2, 3, 7, 8, 16, 31, 32, 33, 64, 100, 127, 128, 129, 200, 300)
+    if mode == 2:
+        b = B("provided-writev", [sel, "write_vectored"])
+        b.op(f"{nw} 0 {sel} {kstr(key)}")
+        acc = rbytes(r, r.randrange(0, 40))
+        b.op(f"iowrite 0 {hexbytes(acc)}")
+        for _ in range(r.randrange(1, 4)):
+            bufs = [rbytes(r, r.choice(lens)) for _ in range(r.randrange(1, 5))]
+            b.tags.append(f"nbufs={len(bufs)}")
+            i = b.op("iowritev 0 " + " ".join(hexbytes(x) for x in bufs))
+            b.expect(i, "ok", "write_vectored did not consume the buffers")
+            acc += b"".join(bufs)
+    else:
+        b = B("provided-writefmt", [sel, "write_fmt"])
+        b.op(f"{nw} 0 {sel} {kstr(key)}")
+        acc = rbytes(r, r.randrange(0, 40))
+        b.op(f"iowrite 0 {hexbytes(acc)}")
+        for _ in range(r.randrange(1, 4)):
+            s = _rstr(r)
+            i = b.op(f"writefmt 0 {hexbytes(s)}")
+            b.expect(i, "ok", "write_fmt failed")
+            acc += s
+    f = b.op("finish 0")
+    j = b.op(f"{hs} {sel} 64 {kstr(key)} {hexbytes(acc)}")
+    b.eq(f, j, "finish() is not the hash of the bytes written through the provided io::Write method")
+    c0 = b.op("ckpt 0")
+    b.op(f"new 1 portable {kstr(key)}")
+    b.op(f"append 1 {hexbytes(acc)}")
+    c1 = b.op("ckpt 1")
+    b.eq(c0, c1, "state after the provided io::Write method differs from appending the same bytes")
+    return b
